@@ -700,6 +700,55 @@ func runC15ConnAttempt(c *mon.Case, variant string, attempt int) {
 			total += s
 		}
 	}
+	_, lazyA := a.(*lazyConn)
+	_, lazyB := b.(*lazyConn)
+	if variant == "L" && c.Idx%3 == 1 && !lazyA && !lazyB {
+		// Deadlines on the real sockets before the transfer: armed through
+		// one setter and cleared through another (SetDeadline, then the two
+		// single setters with the zero time, and the other way round), and a
+		// read deadline that expires while nothing is in flight. Once they
+		// are cleared and their time has passed, the transfer below must
+		// not be affected.
+		mode := rng.Intn(4)
+		past := time.Now().Add(120 * time.Millisecond)
+		var derr error
+		note := func(err error) {
+			if err != nil && derr == nil {
+				derr = err
+			}
+		}
+		for _, cn := range []net.Conn{a, b} {
+			switch mode {
+			case 0:
+				note(cn.SetDeadline(past))
+				note(cn.SetReadDeadline(time.Time{}))
+				note(cn.SetWriteDeadline(time.Time{}))
+			case 1:
+				note(cn.SetReadDeadline(past))
+				note(cn.SetWriteDeadline(past))
+				note(cn.SetDeadline(time.Time{}))
+			case 2:
+				note(cn.SetDeadline(past))
+				note(cn.SetDeadline(time.Time{}))
+			}
+		}
+		if mode == 3 {
+			note(r.SetReadDeadline(past))
+			n, err := r.Read(make([]byte, 16))
+			var ne net.Error
+			if n != 0 || err == nil || !errors.As(err, &ne) || !ne.Timeout() {
+				c.Shard.Violate("contract|L|deadline", fmt.Sprintf("a Read with a read deadline 120 ms ahead and nothing in flight returned n=%d err=%v (expected a timeout error)", n, err), nil)
+				return
+			}
+			note(r.SetReadDeadline(time.Time{}))
+		}
+		if derr != nil {
+			c.Shard.Inconc("L: a deadline setter failed: " + derr.Error())
+			return
+		}
+		time.Sleep(time.Until(past) + 80*time.Millisecond)
+		c.Shard.Count("deadline_preludes", 1)
+	}
 	closeAfterWrite := variant == "L" && rng.Intn(2) == 0
 	if closeAfterWrite {
 		// make the writer run well ahead of the reader
